@@ -249,7 +249,7 @@ class ExprMixin(object):
                 for a, b in zip(ks, vs):
                     d = self.dict_set(d, self.coerce(a, kt).z, b)
                 return self.ok(s2, d)
-            vt = self.join_types([x.ty for x in vs])
+            vt = vs[0].ty if all(x.ty == vs[0].ty for x in vs) else VAL
             if vt is None or len(zsorts(vt)) != 1 or vt == NONE:
                 vt = VAL
             vv = [self.coerce(x, vt) for x in vs]
